@@ -234,3 +234,20 @@ Proof. vm_compute. reflexivity. Qed.
 (* ---- TrimSuffix beyond ASCII: the ASCII model says "no match" where Go's UTF-8 aware folding may match ---- *)
 Example ex_trim_non_ascii : trim_suffix [[120]; [255]] [[254]] = None /\ trim_suffix_gen (fun _ => []) [[120]; [255]] [[254]] = Some [[120]].
 Proof. split; vm_compute; reflexivity. Qed.
+
+(* ---- concurrent requests: two requesters, their queries served in either arrival order ---- *)
+Example ex_serve_two :
+  exists q1 c1 q2 c2,
+    requester_query b32_encode bytes id_write [] [9] ex_dom 17 [1; 2; 3] = Some (q1, c1) /\
+    requester_query b32_encode bytes id_write [] [9] ex_dom 18 [4; 5] = Some (q2, c2) /\
+    q1 <> q2 /\
+    exists r1 r2,
+      serve b32_decode bytes id_read id_crypt [9] ex_dom ex_process [q2; q1] = [(q2, Some r2); (q1, Some r1)] /\
+      requester_receive bytes id_crypt c1 ex_dom r1 = Some [3; 2; 1; 7; 7] /\
+      requester_receive bytes id_crypt c2 ex_dom r2 = Some [5; 4; 7; 7] /\
+      get_u16 r1 0 = Some 17 /\ get_u16 r2 0 = Some 18.
+Proof.
+  do 4 eexists. split; [vm_compute; reflexivity|]. split; [vm_compute; reflexivity|]. split; [discriminate|].
+  do 2 eexists. split; [vm_compute; reflexivity|]. split; [vm_compute; reflexivity|]. split; [vm_compute; reflexivity|].
+  split; vm_compute; reflexivity.
+Qed.
